@@ -1371,6 +1371,13 @@ class Exec:
             od = st.heap[o.oid]
             if od.owner != "fresh":
                 st.writes.append((od.owner, f"{od.cls}.{tgt.attr}", node.lineno))
+            sl = getattr(self.k, "sym_lists", {}) if self.k is not None else {}
+            key = ast.unparse(tgt)
+            if key in sl and isinstance(val, LRef) and not st.heap[val.sid].items:
+                # `self.items = []` for a list the contract tracks symbolically (it grows in a loop)
+                cls = sl[key]
+                val = _objs.new_symlist(self, st, cls if cls not in ("real", "int", "bool", "boolarr", "realarr") else None, name=key,
+                                        elem_sort={"real": R, "int": I, "bool": B, "boolarr": z3.ArraySort(I, B), "realarr": z3.ArraySort(I, R)}.get(cls))
             od.fields[tgt.attr] = val
             return
         if isinstance(tgt, ast.Subscript):
@@ -1878,9 +1885,12 @@ class Exec:
             if isinstance(x, ast.AugAssign) and isinstance(x.target, ast.Name):
                 stores.add(x.target.id)
                 aug.add(x.target.id)
-            if isinstance(x, ast.Call) and isinstance(x.func, ast.Attribute) and x.func.attr in ("append", "extend") \
-                    and isinstance(x.func.value, ast.Name):
-                stores.add(x.func.value.id)
+            if isinstance(x, ast.Call) and isinstance(x.func, ast.Attribute) and x.func.attr in ("append", "extend"):
+                b = x.func.value
+                while isinstance(b, (ast.Subscript, ast.Attribute)):      # self.items.append(...): a store into the object `self`
+                    b = b.value
+                if isinstance(b, ast.Name):
+                    stores.add(b.id)
         # a name that is only ever augmented-assigned keeps its storage (numpy += is in place)
         return names, stores, (aug - plain)
 
